@@ -3,7 +3,7 @@
 with the statement exactly as Coq prints it (so the property file shows the full statement)."""
 import subprocess, sys, re, tempfile, os
 def stmts(imports, pairs, scopes=('N_scope',)):
-    src = imports + '\nImport ListNotations.\n' + ''.join('Local Open Scope %s.\n' % s for s in scopes) + 'Set Printing Width 110.\nSet Printing Depth 200.\n'
+    src = imports + '\nFrom Coq Require Import List.\nImport ListNotations.\n' + ''.join('Local Open Scope %s.\n' % s for s in scopes) + 'Set Printing Width 110.\nSet Printing Depth 200.\n'
     for (_, lem) in pairs:
         src += 'Check %s.\n' % lem
     with tempfile.NamedTemporaryFile('w', suffix='.v', delete=False, dir='/tmp') as f:
